@@ -423,8 +423,9 @@ def _arith(ctx, o, orr, osb, f, K, d, pre, loop, tail):
                 ok = False
             continue
         if not stores:
-            osb.refute(f, loop, f"skip:{SIGN_NAME[sv]}/{SIGN_NAME[sa]}",
-                       f"{K} skips an informative operand ({case}): only None operands may be skipped")
+            if ok:
+                osb.refute(f, loop, f"skip:{SIGN_NAME[sv]}",
+                           f"{K} skips an informative operand ({case}): only None operands may be skipped")
             ok = False
             continue
         if len(stores) > 1:
@@ -596,7 +597,7 @@ def _weekday_guard(ctx, o, f, gs, subject, what, keys: bool):
                 if not c and not bad:
                     continue
                 rest = [x for x in g.clauses if x is not cl]
-                extra = [x for x in rest if not U.is_mode_clause(x)]
+                extra = [x for x in rest if not U.is_mode_clause(x, ('days', 'units_per_day'))]
                 if extra:
                     o.undecided(g.func, g.raise_node, g.raise_node, f"{what}: range check is conditional on " +
                                 '; '.join(U.clause_text(x) for x in extra))
@@ -610,6 +611,30 @@ def _weekday_guard(ctx, o, f, gs, subject, what, keys: bool):
                 cov |= c
                 hits.append(g)
     if cov == {'lo', 'hi'}:
+        # the check must lie on every path that builds the day table from this argument
+        vf = _value_field(ctx, 'WeeklyCalendar')
+        cfg = cfg_of(f)
+        stores = [st for st, ens in (_field_stores(ctx, f, vf[0], 'mapping') if vf else [])
+                  if ens and any(en.value is not None and (U.mentions(en.value, 'days') != keys) and U.mentions(en.value, 'units_per_day')
+                                 for en in ens)]
+        if not stores:
+            o.undecided(f, f.node, f"table:{what}", f"{what}: the store that builds the day table from this argument was not found")
+            return
+        for st in stores:
+            sn = cfg.node_of(st)
+            lo_hi = set()
+            for g in hits:
+                an = g.dom
+                if an is not None and sn is not None and (cfg.dominates(an, sn) or (
+                        cfg.dominates(sn, an) and [(id(t), p) for t, p in U.live_conditions(cfg, an, True)] ==
+                        [(id(t), p) for t, p in U.live_conditions(cfg, sn, True)])):
+                    for cl in g.clauses:
+                        lo_hi |= _range_cover(cl, next((U.items_binding(t, it)[0] for t, it in g.binders
+                                                        if U.items_binding(t, it) and _name(U.items_binding(t, it)[2], subject)), ''))[0]
+            if lo_hi != {'lo', 'hi'}:
+                o.refute(f, st, f"unchecked-path:{what}", f"{what}: the 0..6 check is not on the path that fills the day table at line "
+                         f"`{src(st).splitlines()[0][:60]}`: on that path week days outside 0..6 are accepted")
+                return
         g = hits[0]
         o.site(f, g.anchor, f"{what}: outside 0..6 -> RuntimeError" + (f" (via {g.func.name})" if g.via is not None else ''))
         return
@@ -650,7 +675,7 @@ def _start_end_guard(ctx, o, f, gs, cls):
                 if len(cl) > 1 and any(not (x is a) and not U.is_mode_atom(x, q) for x, q in cl):
                     o.undecided(g.func, g.raise_node, g.raise_node, f"{cls}: start/end test is part of a larger disjunction")
                     return
-                extra = [x for x in g.clauses if x is not cl and not U.is_mode_clause(x)]
+                extra = [x for x in g.clauses if x is not cl and not U.is_mode_clause(x, ('start', 'end'))]
                 if extra:
                     o.undecided(g.func, g.raise_node, g.raise_node, f"{cls}: start/end check is conditional on " +
                                 '; '.join(U.clause_text(x) for x in extra))
@@ -869,7 +894,7 @@ def _nonneg(ctx):
                     hit = [s for s, a in sas if s is not None and _name(s[0], b[1])]
                     if not hit:
                         continue
-                    if len(cl) > 1 or any(not U.is_mode_clause(c) for c in g.clauses if c is not cl):
+                    if len(cl) > 1 or any(not U.is_mode_clause(c, names_in(D)) for c in g.clauses if c is not cl):
                         return ('unk', "the value check is part of a larger condition", g.raise_node)
                     op = hit[0][1]
                     if op == '<=':
@@ -878,10 +903,7 @@ def _nonneg(ctx):
                         return ('bad', f"values of `{src(D)}` are rejected when `{op} 0`, expected `< 0`", g.raise_node)
                     if g.exc != 'RuntimeError':
                         return ('bad', f"negative values of `{src(D)}` are rejected with {g.exc}, expected RuntimeError", g.raise_node)
-                    an = cfg.node_containing(g.anchor) or cfg.node_of(g.anchor)
-                    if g.via is None:
-                        fo = [x for x in cfg.enclosing_fors(an)]
-                        an = cfg.node_of(fo[0]) if fo else an
+                    an = g.dom
                     if an is not None and sn is not None and cfg.dominates(an, sn):
                         return 'ok'
                     if ctor and an is not None and sn is not None and cfg.dominates(sn, an) and \
@@ -1267,6 +1289,8 @@ def _leaf_semantics(ctx):
 
             def in_weekly(v, f):
                 m = match("self.$f[$k]", v)
+                if isinstance(v, ast.Constant):
+                    return ('bad', "inside its validity (bounds included) the calendar must answer with its day table entry")
                 if not m or m['f'] != wf:
                     return ('unk', "not an entry of the day table")
                 mk = match("$d.weekday()", m['k'])
@@ -1290,7 +1314,7 @@ def _leaf_semantics(ctx):
                 if m and m['f'] == fu[1]:
                     return None
                 if isinstance(v, ast.Constant) or m:
-                    return ('bad', "expected the configured units")
+                    return ('bad', "inside its validity (bounds included) the calendar must answer with the configured units")
                 return ('unk', "not the configured units")
             _bounded(ctx, o, 'FixedCalendar', 0, in_fixed)
         # ---- Direct
